@@ -92,6 +92,11 @@ int main(int argc, char** argv) {
             auto axisOf = [&](const mj::Value& a) { const double sc = std::pow(5.0, a["e"].dbl()); return UnitVec3(Vec3(a["n"][0].dbl() / sc, a["n"][1].dbl() / sc, a["n"][2].dbl() / sc)); };
             for (auto& k : c["cons"].arr()) {
                 const string t = k["type"].str(); MobilizedBody& b1 = mb[(int)k["b1"].num()];
+                if (t == "ballc") {      // one library Ball for the three spec entries
+                    if (k["part"].num() == 0) { cons.push_back(Constraint::Ball(b1, vec(k["st"]), mb[(int)k["b2"].num()], vec(k["st2"]))); cons.back().setDisabledByDefault(true); }
+                    else cons.push_back(Constraint());
+                    continue;
+                }
                 if (t == "cang" && k.has("grp")) {      // part of a ConstantOrientation: one library constraint for the three spec entries
                     if (k["part"].num() == 0) { cons.push_back(Constraint::ConstantOrientation(b1, frameRot(k["RB"]), mb[(int)k["b2"].num()], frameRot(k["RF"]))); cons.back().setDisabledByDefault(true); }
                     else cons.push_back(Constraint());       // placeholder (empty handle) keeping the indices aligned
@@ -354,13 +359,16 @@ int main(int argc, char** argv) {
                     const mj::Value& FE = pass ? c["felems2"] : c["felems"];
                     for (size_t k = 0; k < fel.size(); ++k) {
                         const mj::Value& e = FE[(int)k]; const string t = e["type"].str();
-                        if (e["on"].num()) fel[k].enable(sf); else fel[k].disable(sf);
+                        const mj::Value& e0 = c["felems"][(int)k];      // only what CHANGES is touched in the second pass
+                        if (!pass || e["on"].num() != e0["on"].num()) { if (e["on"].num()) fel[k].enable(sf); else fel[k].disable(sf); }
                         if (pass) {   // runtime parameter changes
-                            if (t == "gravity") { const Force::Gravity& g = Force::Gravity::downcast(fel[k]); g.setGravityVector(sf, vec(e["g"]));
-                                                  for (int i = 1; i <= N; ++i) g.setBodyIsExcluded(sf, mb[i].getMobilizedBodyIndex(), e["ex"][i - 1].num() != 0); }
-                            else if (t == "mcf") Force::MobilityConstantForce::downcast(fel[k]).setForce(sf, e["c"].dbl());
-                            else if (t == "mls") { Force::MobilityLinearSpring::downcast(fel[k]).setStiffness(sf, e["c"].dbl()); Force::MobilityLinearSpring::downcast(fel[k]).setQZero(sf, e["q0"].dbl()); }
-                            else if (t == "mld") Force::MobilityLinearDamper::downcast(fel[k]).setDamping(sf, e["c"].dbl());
+                            if (t == "gravity") { const Force::Gravity& g = Force::Gravity::downcast(fel[k]);
+                                                  if (vec(e["g"]) != vec(e0["g"])) g.setGravityVector(sf, vec(e["g"]));
+                                                  for (int i = 1; i <= N; ++i) if (e["ex"][i - 1].num() != e0["ex"][i - 1].num()) g.setBodyIsExcluded(sf, mb[i].getMobilizedBodyIndex(), e["ex"][i - 1].num() != 0); }
+                            else if (t == "mcf") { if (e["c"].dbl() != e0["c"].dbl()) Force::MobilityConstantForce::downcast(fel[k]).setForce(sf, e["c"].dbl()); }
+                            else if (t == "mls") { if (e["c"].dbl() != e0["c"].dbl()) Force::MobilityLinearSpring::downcast(fel[k]).setStiffness(sf, e["c"].dbl());
+                                                   if (e["q0"].dbl() != e0["q0"].dbl()) Force::MobilityLinearSpring::downcast(fel[k]).setQZero(sf, e["q0"].dbl()); }
+                            else if (t == "mld") { if (e["c"].dbl() != e0["c"].dbl()) Force::MobilityLinearDamper::downcast(fel[k]).setDamping(sf, e["c"].dbl()); }
                         } else if (t == "gravity") { const Force::Gravity& g = Force::Gravity::downcast(fel[k]);
                             for (int i = 1; i <= N; ++i) g.setBodyIsExcluded(sf, mb[i].getMobilizedBodyIndex(), e["ex"][i - 1].num() != 0); }
                     }
